@@ -3,8 +3,11 @@ package c17
 import (
 	"context"
 	"fmt"
+	"runtime"
 	"sort"
 	"strings"
+	"sync/atomic"
+	"time"
 
 	"github.com/protolambda/zrnt/eth2/beacon/common"
 	"github.com/protolambda/zrnt/eth2/configs"
@@ -45,7 +48,9 @@ func rootName(r common.Root) string {
 	return fmt.Sprintf("?%x", r[:3])
 }
 
-func refName(n common.NodeRef) string { return "(" + rootName(n.Root) + "," + fmt.Sprint(uint64(n.Slot)) + ")" }
+func refName(n common.NodeRef) string {
+	return "(" + rootName(n.Root) + "," + fmt.Sprint(uint64(n.Slot)) + ")"
+}
 
 func refsName(ns []common.NodeRef, sorted bool) string {
 	s := make([]string, len(ns))
@@ -68,8 +73,72 @@ func errName(err error) string {
 type sinkKey struct{}
 
 type fcWorld struct {
-	fc  forkchoice.Forkchoice
-	cfg *fcsim.Config
+	fc   forkchoice.Forkchoice
+	cfg  *fcsim.Config
+	slow *slowGraph
+}
+
+// slowGraph decorates the graph the wrapper drives: once armed (the concurrent phase only — never in the
+// single-threaded replays that serve as the sequential specification) every graph call first pauses
+// (Gosched, or a sleep of tens to hundreds of microseconds). The wrapper calls into the graph while it
+// holds its lock, so a pause widens exactly the windows in which other goroutines queue up on that lock;
+// a method that validates under one lock acquisition and acts under another then meets a writer in between.
+// The pause perturbs the schedule only; no verdict depends on a duration.
+type slowGraph struct {
+	forkchoice.ForkchoiceGraph
+	kind atomic.Int32
+}
+
+func (g *slowGraph) pause() {
+	switch g.kind.Load() {
+	case 1:
+		runtime.Gosched()
+	case 2:
+		time.Sleep(40 * time.Microsecond)
+	case 3:
+		time.Sleep(300 * time.Microsecond)
+	}
+}
+
+func (g *slowGraph) arm(kind int) { g.kind.Store(int32(kind)) }
+
+func (g *slowGraph) CanonicalChain(a common.Root, s common.Slot) ([]common.ExtendedNodeRef, error) {
+	g.pause()
+	return g.ForkchoiceGraph.CanonicalChain(a, s)
+}
+func (g *slowGraph) ClosestToSlot(a common.Root, s common.Slot) (common.NodeRef, error) {
+	g.pause()
+	return g.ForkchoiceGraph.ClosestToSlot(a, s)
+}
+func (g *slowGraph) CanonAtSlot(a common.Root, s common.Slot, wb bool) (common.NodeRef, error) {
+	g.pause()
+	return g.ForkchoiceGraph.CanonAtSlot(a, s, wb)
+}
+func (g *slowGraph) GetSlot(r common.Root) (common.Slot, bool) {
+	g.pause()
+	return g.ForkchoiceGraph.GetSlot(r)
+}
+func (g *slowGraph) FindHead(a common.Root, s common.Slot) (common.NodeRef, error) {
+	g.pause()
+	return g.ForkchoiceGraph.FindHead(a, s)
+}
+func (g *slowGraph) InSubtree(a, r common.Root) (bool, bool) {
+	g.pause()
+	return g.ForkchoiceGraph.InSubtree(a, r)
+}
+func (g *slowGraph) Search(a common.NodeRef, p *common.Root, s *common.Slot) ([]common.NodeRef, []common.NodeRef, error) {
+	g.pause()
+	return g.ForkchoiceGraph.Search(a, p, s)
+}
+func (g *slowGraph) OnPrune(ctx context.Context, r common.Root, s common.Slot) error {
+	g.pause()
+	return g.ForkchoiceGraph.OnPrune(ctx, r, s)
+}
+
+func (w *fcWorld) arm(kind int) {
+	if w.slow != nil {
+		w.slow.arm(kind)
+	}
 }
 
 func newFcWorld(c *Case) (world, error) {
@@ -96,11 +165,12 @@ func newFcWorld(c *Case) (world, error) {
 		bal[i] = common.Gwei(b)
 	}
 	pa := proto.NewProtoArray(ap, ar, common.Slot(cfg.AnchorSlot), just.Epoch, fin.Epoch, sink)
-	fc, err := forkchoice.NewForkChoice(fcSpec, fin, just, ar, common.Slot(cfg.AnchorSlot), pa, proto.NewProtoVoteStore(fcSpec), bal)
+	sg := &slowGraph{ForkchoiceGraph: pa}
+	fc, err := forkchoice.NewForkChoice(fcSpec, fin, just, ar, common.Slot(cfg.AnchorSlot), sg, proto.NewProtoVoteStore(fcSpec), bal)
 	if err != nil {
 		return nil, err
 	}
-	return &fcWorld{fc: fc, cfg: cfg}, nil
+	return &fcWorld{fc: fc, cfg: cfg, slow: sg}, nil
 }
 
 func (w *fcWorld) do(g int, op *Op) string {
